@@ -1,6 +1,7 @@
 import Dcg.Proofs.Resolver
 import Dcg.Proofs.ResolverMultidoc
 import Dcg.Proofs.ResolverWorklist
+import Dcg.Proofs.ResolverDedupe
 /-
 C06 — each named schema yields exactly one model and every reference lands on it.
 Only property theorems live here; helper lemmas are in Dcg/Proofs/Resolver.lean.
@@ -240,6 +241,61 @@ theorem module_pass_restores_imported_name :
       [⟨L "#", L "Root", []⟩, ⟨L "#/definitions/Optional", L "Optional", []⟩,
        ⟨L "#/definitions/optional", L "Optional1", L "Optional"⟩] =
       some [L "Root", L "OptionalModel", L "Optional"] := by decide
+
+/-! ### `Parser.__delete_duplicate_models`: merged only when the rendered content is identical -/
+
+section dedupe
+open Dcg.Model.ResolverDedupe Dcg.Proofs.ResolverDedupe
+
+/-- the pass gives a verdict for every model -/
+theorem dedupe_length (ms : List DModel) : (dedupe ms).length = ms.length := by
+  have h := run_inv ms
+  have := h.1.len
+  rw [h.2] at this
+  exact this
+
+/-- DEDUPE_ONLY_IDENTICAL, over ANY sequence of models (any number of same-named ones, in any order,
+interleaved with others): a model is dropped only in favour of an EARLIER model that has the same desired
+name AND the same rendered content (`render(class_name=duplicate_class_name)`, `imports`), and that model
+is itself kept. -/
+theorem dedupe_only_identical (ms : List DModel) (i j : Nat) (h : (dedupe ms)[i]? = some (some j)) :
+    j < i ∧ ∃ mi mj : DModel, ms[i]? = some mi ∧ ms[j]? = some mj ∧ mi.key = mj.key ∧ mi.name = mj.name ∧
+      (dedupe ms)[j]? = some none := by
+  have hr := run_inv ms
+  have := hr.1.out i j h
+  rw [hr.2] at this
+  exact this
+
+/-- …hence every `$ref`: the model that a reference to the model at position `i` is rendered as after the
+pass (`land`) is a kept model with exactly the content and the desired name of model `i`. -/
+theorem ref_lands_on_identical_content (ms : List DModel) (i : Nat) (mi : DModel) (h : ms[i]? = some mi) :
+    ∃ mj : DModel, ms[land (dedupe ms) i]? = some mj ∧ mj.key = mi.key ∧ mj.name = mi.name ∧
+      (dedupe ms)[land (dedupe ms) i]? = some none := by
+  have hi : i < (dedupe ms).length := by rw [dedupe_length]; exact lt_of_get h
+  unfold land
+  cases hv : (dedupe ms)[i]? with
+  | none =>
+    have := List.getElem?_eq_none_iff.mp hv
+    omega
+  | some v =>
+    cases v with
+    | none => exact ⟨mi, h, rfl, rfl, hv⟩
+    | some j =>
+      obtain ⟨_, mi', mj, h1, h2, h3, h4, h5⟩ := dedupe_only_identical ms i j hv
+      rw [h] at h1
+      cases h1
+      exact ⟨mj, h2, h3.symm, h4.symm, h5⟩
+
+/-- non-vacuity, and what the pass does with three same-named models: a model is compared with the one
+registered LAST under its name. `X, X', Y` (X' = X): X' is dropped for X. `X, Y, X'`: Y replaces X in the
+registry, X' differs from Y, nothing is dropped — in particular X' is NOT dropped for Y. -/
+example :
+    let x : DModel := ⟨"Pet".toList, "name".toList⟩
+    let y : DModel := ⟨"Pet".toList, "age".toList⟩
+    dedupe [x, x, y] = [none, some 0, none] ∧ dedupe [x, y, x] = [none, none, none] ∧
+      dedupe [y, x, x] = [none, none, some 1] ∧ land (dedupe [x, x, y]) 1 = 0 := by decide
+
+end dedupe
 
 /-! ### `resolve_ref` -/
 
